@@ -93,7 +93,9 @@ pub fn blocked_recv_lap<F: Fl, const KIND: u8>(cap: u64, idle_limit: u32, lap: u
         4 => 3,
         _ => 1,
     };
-    sched::configure(1, others, sched::MEM_KINDS, 1);
+    // window: in front of loads, lock operations and notifications (the waiter's own stores / RMWs
+    // - its position commit - are not preemption points in these harnesses)
+    sched::configure(1, others, sched::WIN_LOADS | (1 << 3) | (1 << 4) | (1 << 6) | (1 << 7) | (1 << 9), 1);
     sched::st().idle_limit = if idle_limit == 0 { 24 } else { idle_limit };
     let mut w = World::<F>::new(cap);
     set_world::<F>(&mut w);
